@@ -281,6 +281,46 @@ def lower_spawned_loop(path):
     return ["Store::new -> verif_new (spawned command loop as a closure)"]
 
 
+def lower_spawn_fn(path, struct_hint=""):
+    """`pub fn spawn(ARGS) { tokio::spawn(async move { BODY }); }` gets a sibling
+           pub fn verif_spawn(ARGS) -> impl FnMut() { let __task = move || { BODY' }; __task }
+    generated from the current text on every run (same rewriting of BODY as lower_spawned_loop)."""
+    s = open(path).read()
+    m = re.search(r"pub fn spawn\(", s)
+    if not m:
+        raise SystemExit("lower_spawn_fn: `pub fn spawn(` not found in " + path)
+    # argument list up to the matching parenthesis
+    i, d = m.end() - 1, 0
+    while True:
+        if s[i] == "(":
+            d += 1
+        elif s[i] == ")":
+            d -= 1
+            if d == 0:
+                break
+        i += 1
+    args = s[m.end():i]
+    b = s.index("{", i)
+    if s[i + 1:b].strip():
+        raise SystemExit("lower_spawn_fn: spawn has a return type")
+    e = _match_brace(s, b)
+    body = s[b + 1:e]
+    sm = re.match(r"\s*tokio::spawn\(async move \{", body)
+    if not sm:
+        raise SystemExit("lower_spawn_fn: body does not start with `tokio::spawn(async move {`")
+    bi = sm.end() - 1
+    bj = _match_brace(body, bi)
+    if not re.match(r"^\s*\)\s*;\s*$", body[bj + 1:]):
+        raise SystemExit("lower_spawn_fn: text after the spawned block")
+    task = body[bi + 1:bj].replace(".recv().await", ".recv().vnow_or_none()").replace(".await", ".vnow()")
+    new_fn = ("\n    /// generated by kani/overlay.py from the text of `spawn` (see lower_spawn_fn)\n"
+              "    pub fn verif_spawn(%s) -> impl FnMut() { let __task = move || { #[allow(unused_imports)] use ::tokio::{VNow as _, VNowOrNone as _}; %s }; __task }\n"
+              % (args, task))
+    s = s[:e + 1] + new_fn + s[e + 1:]
+    open(path, "w").write(s)
+    return ["spawn -> verif_spawn (spawned loop as a closure)"]
+
+
 def main():
     ap = argparse.ArgumentParser()
     ap.add_argument("--profile", required=True, choices=sorted(PROFILES))
@@ -367,6 +407,10 @@ def main():
                 lowered, kept = deasync(p, rel)
                 report["deasync"][rel] = {"lowered": lowered, "kept_async": kept}
 
+    if a.profile in ("L", "L8", "R"):
+        pp = os.path.join(out, "mempool/src/processor.rs")
+        if os.path.exists(pp):
+            report["deasync"]["mempool/src/processor.rs"] = {"lowered": lower_spawn_fn(pp), "kept_async": []}
     if a.profile == "S":
         sp = os.path.join(out, "store/src/lib.rs")
         low = lower_spawned_loop(sp)
